@@ -586,6 +586,11 @@ def locks_compare(sc, r, out_lines, exp, t="t1"):
             continue
         bk = x["bk"]
         x["X"] = len(p) > 12 and p[12] == "X"
+        # keep-alive (ttlManager): running or not after every call; the bound key is kept for the heart-beat check
+        if len(p) > 14:
+            x["ka"] = "" if p[14] in ("U", "C") else kname.get(p[14], "?")
+            if "ttl_running" in bk and (x["ka"] != "") != bool(bk["ttl_running"]):
+                bad.append(f"step {x['i']} ({x['op']}): keep-alive running model={x['ka'] != ''} ({p[14]}) client={bk['ttl_running']}")
         # committer.primaryKey (pessimistic transactions, while the transaction is open)
         if len(p) > 13 and "primary" in bk and x["op"] not in ("commit", "rollback") and p[9] == "1":
             mp = kname.get(p[13]) if p[13] != "-" else ""
